@@ -62,11 +62,11 @@ type gatewaySpec struct {
 
 // grantSpec is a ReferenceGrant living in namespace NS (the namespace of the referenced objects).
 type grantSpec struct {
-	NS, Name           string
+	NS, Name            string
 	FromGroup, FromKind string
-	FromNS             string
-	ToGroup, ToKind    string
-	ToName             string // "" = all names
+	FromNS              string
+	ToGroup, ToKind     string
+	ToName              string // "" = all names
 }
 
 // gwapiSpec is a Gateway-API Gateway (class istio) with HTTPS listeners.
